@@ -126,12 +126,15 @@ extern "C" void h_hfe_adapter(void)
 }
 
 // ---------------------------------------------------------------- C18: copy_hfe under --verbose (2-safety)
+#ifndef VB
+#define VB 2
+#endif
 extern "C" void h_verbose_copy_hfe(void)
 {
-  byte in[4];
-  for (unsigned i = 0; i < 4; ++i) in[i] = vf_nondet_u8();
-  const unsigned n = vf_nondet_u8(); vf_assume(n <= 4);
-  std::vector<byte> quiet, loud; quiet.reserve(5); loud.reserve(5);
+  byte in[VB];
+  for (unsigned i = 0; i < VB; ++i) in[i] = vf_nondet_u8();
+  const unsigned n = vf_nondet_u8(); vf_assume(n <= VB);
+  std::vector<byte> quiet, loud; quiet.reserve(VB + 1); loud.reserve(VB + 1);
   bool tq = false, tl = false;
   DFS::verbose = false;
   try { copy_hfe(true, in, in + n, std::back_inserter(quiet)); } catch (InvalidHfeFile&) { tq = true; }
@@ -142,9 +145,11 @@ extern "C" void h_verbose_copy_hfe(void)
   DFS::verbose = false;
   vf_assert(tq == tl, "--verbose does not change whether the track is accepted");
   vf_assert(quiet.size() == loud.size(), "--verbose does not change the decoded cells (count)");
-  for (unsigned i = 0; i < 4; ++i) if (i < quiet.size() && i < loud.size()) vf_assert(quiet[i] == loud[i], "--verbose does not change the decoded cells");
-  vf_assert(quiet.capacity() == 5 && loud.capacity() == 5, "harness: output vectors never re-allocated");
-  for (unsigned i = 0; i < vfio::MAXEV; ++i) if (i < vfio::nev) vf_assert(vfio::ev_stream[i] == 2, "everything --verbose adds goes to standard error");
+  for (unsigned i = 0; i < VB; ++i) if (i < quiet.size() && i < loud.size()) vf_assert(quiet[i] == loud[i], "--verbose does not change the decoded cells");
+  vf_assert(quiet.capacity() == VB + 1 && loud.capacity() == VB + 1, "harness: output vectors never re-allocated");
+  { const unsigned k = vf_nondet_u8() % vfio::MAXEV;     // any event (symbolic index instead of a 192-iteration scan)
+    if (k < vfio::nev) vf_assert(vfio::ev_stream[k] == 2, "everything --verbose adds goes to standard error"); }
+  vf_assert(!vfio::overflow, "event log large enough");
   vf_observe(quiet.size());
   if (vfio::nev > ev_quiet + 1) vf_witness("verbose opcode trace printed");
 }
